@@ -40,22 +40,32 @@ class PolarsSchemaBackend(BaseSchemaBackend):
         sample: Optional[int] = None,
         random_state: Optional[int] = None,
     ):
+        if head is None and tail is None and sample is None:
+            return check_obj
+
+        # rows are selected by position: a row selected more than once is
+        # validated once, rows that merely hold equal values are all kept.
+        row_index = "__pandera_row_index__"
+        if hasattr(check_obj, "with_row_index"):
+            indexed_obj = check_obj.with_row_index(row_index)
+        else:
+            indexed_obj = check_obj.with_row_count(row_index)
+
         obj_subsample = []
         if head is not None:
-            obj_subsample.append(check_obj.head(head))
+            obj_subsample.append(indexed_obj.head(head))
         if tail is not None:
-            obj_subsample.append(check_obj.tail(tail))
+            obj_subsample.append(indexed_obj.tail(tail))
         if sample is not None:
+            # LazyFrames cannot be sampled
+            # https://github.com/unionai-oss/pandera/issues/1912
             obj_subsample.append(
-                # mypy is detecting a bug https://github.com/unionai-oss/pandera/issues/1912
-                check_obj.sample(  # type:ignore [attr-defined]
-                    sample, random_state=random_state
-                )
+                indexed_obj.collect().sample(sample, seed=random_state).lazy()
             )
         return (
-            check_obj
-            if not obj_subsample
-            else pl.concat(obj_subsample).unique()
+            pl.concat(obj_subsample)
+            .unique(subset=row_index, maintain_order=True)
+            .drop(row_index)
         )
 
     def run_check(
